@@ -1,5 +1,5 @@
 """C14  Square roots are sound and complete in Fq and Fq2."""
-from .. import gen, rm
+from .. import gen, rm, points
 from ..mon import f2hex, hex_f2
 from ..rm import q, r, h32, f2mul, f2neg, F1, F2
 
@@ -22,7 +22,7 @@ def required(tier):
     return ['fq.sqrt/square', 'fq.sqrt/nonresidue', 'fq.sqrt/zero', 'fq2.sqrt/square', 'fq2.sqrt/nonsquare', 'fq2.sqrt/zero',
             'fq2.sqrt/real-qr-low', 'fq2.sqrt/real-qr-high', 'fq2.sqrt/real-nqr-low', 'fq2.sqrt/real-nqr-high',
             'fq2.sqrt/imag', 'fq2.sqrt/fixed', 'g1.from_compressed/02', 'g1.from_compressed/03', 'g2.from_compressed/02',
-            'g2.from_compressed/03', 'g1.from_compressed/nopoint']
+            'g2.from_compressed/03', 'g1.from_compressed/nopoint', 'fq2.sqrt/computed', 'g1.from_compressed/x-near-q']
 
 
 def run(ctx, spec):
@@ -45,6 +45,13 @@ def run(ctx, spec):
                 x = rng.choice([0, 1, q - 1, q - 2, 2, 4, (q - 1) // 2, (q + 1) // 2])
             cls = 'fq.sqrt/' + ('zero' if x == 0 else 'square' if rm.fq_issq(x) else 'nonresidue')
             add('_ fq.sqrt %s' % h32(x), 'fq', cls, x)
+        elif k == 8 and rng.random() < 0.5:
+            # the input is COMPUTED by the library: z * conj(z) - the imaginary part cancels exactly from non-zero cross terms
+            z, _c = gen.fq2_value(rng)
+            zc = (z[0], (-z[1]) % q)
+            lines.append('t fq2.mul.vv %s %s' % (f2hex(z), f2hex(zc)))
+            exp.append(('setup', None, None, None))
+            add('_ fq2.sqrt $t', 'fq2', 'fq2.sqrt/computed', f2mul(z, zc))
         elif k < 9:
             z, _c = gen.fq2_value(rng)
             kk = rng.randrange(8)
@@ -84,12 +91,24 @@ def run(ctx, spec):
             P = rm.gmul(which, kk)
             pre = rng.choice(['02', '03'])
             add('_ g%d.from_compressed %s%s' % (which, pre, F.enc(P[0])), 'dec', 'g%d.from_compressed/%s' % (which, pre), (which, P, pre))
+            if which == 1 and rng.random() < 0.3:
+                # x-coordinates just below q (between r and q): a range check against the wrong modulus would refuse them
+                for kk2 in rng.sample(range(1, 400), 6):
+                    Pq = points.lift_x(1, q - kk2)
+                    if Pq is not None:
+                        pre2 = rng.choice(['02', '03'])
+                        add('_ g1.from_compressed %s%s' % (pre2, h32(q - kk2)), 'dec', 'g1.from_compressed/x-near-q', (1, Pq, pre2))
+                        break
             if which == 1 and rng.random() < 0.5:
                 x = rng.randrange(q)
                 if not rm.fq_issq((x * x * x + 5) % q):
                     add('_ g1.from_compressed %s%s' % (pre, h32(x)), 'nopoint', 'g1.from_compressed/nopoint', x)
     ans = ctx.run(lines)
     for line, an, (kind, cls, x, extra) in zip(lines, ans, exp):
+        if kind == 'setup':
+            if not an.startswith('ok '):
+                ctx.fail('setup', 'setup line answered %r (%s)' % (an[:100], line[:120]), observed=an, line=line)
+            continue
         head, _, payload = an.partition(' ')
         sig = cls.split('/')[0]
         if kind == 'fq':
